@@ -50,8 +50,9 @@
         last activity is at most healthcheck_delay ago (no health check unless forced) and [hc] is
         the result a health check would have; an address is popped at most once per [get], so a
         function of the address is fully general;
-      * [now]: the clock, whole seconds, one reading per operation (the tie resolves a second
-        boundary crossed inside one operation by trying both readings). *)
+      * the clock, whole seconds: one reading per admin command / statement failure; inside a
+        checkout two readings per address ([tc a] in try_unban, [bc a] in ban), all arbitrary
+        (not even monotone). *)
 From Coq Require Import ZArith List Bool Arith Lia.
 Import ListNotations.
 Open Scope Z_scope.
@@ -191,25 +192,28 @@ Definition contact (now : Z) (outs : addr -> outcome) (a : addr) (force : bool) 
       else Done bl1
   end.
 
-(** One iteration of the loop for the popped address [a]. *)
-Definition visit (c : cfg) (now : Z) (outs : addr -> outcome) (a : addr) (bl : banlist) : vres :=
-  match gate c now a bl with
+(** One iteration of the loop for the popped address [a].  The code reads the clock separately
+    in [try_unban] and in [ban] (a connect or health-check timeout may lie in between), so the
+    environment supplies two readings per address: [tc a] for the expiry test, [bc a] for the
+    time stamp of a new ban. *)
+Definition visit (c : cfg) (tc bc : addr -> Z) (outs : addr -> outcome) (a : addr) (bl : banlist) : vres :=
+  match gate c (tc a) a bl with
   | None => Skip bl
-  | Some (force, bl1) => contact now outs a force bl1
+  | Some (force, bl1) => contact (bc a) outs a force bl1
   end.
 
 Inductive gres : Type := Ok (a : addr) | ErrAllDown | ErrInvalidShard.
 
 (** The loop over the addresses still to pop, next one first.  Returns the result, the addresses
     CONTACTED (checkout attempted) in order, and the ban list afterwards. *)
-Fixpoint get_loop (c : cfg) (now : Z) (outs : addr -> outcome) (todo : list addr) (bl : banlist)
+Fixpoint get_loop (c : cfg) (tc bc : addr -> Z) (outs : addr -> outcome) (todo : list addr) (bl : banlist)
   : gres * list addr * banlist :=
   match todo with
   | [] => (ErrAllDown, [], bl)
   | a :: rest =>
-      match visit c now outs a bl with
-      | Skip bl1 => get_loop c now outs rest bl1
-      | Fail bl1 => let '(r, ct, bl2) := get_loop c now outs rest bl1 in (r, a :: ct, bl2)
+      match visit c tc bc outs a bl with
+      | Skip bl1 => get_loop c tc bc outs rest bl1
+      | Fail bl1 => let '(r, ct, bl2) := get_loop c tc bc outs rest bl1 in (r, a :: ct, bl2)
       | Done bl1 => (Ok a, [a], bl1)
       end
   end.
@@ -238,10 +242,10 @@ Definition candidates (c : cfg) (req : option role) (s : sel) : list addr :=
 
 (** [order] is the candidate vector as it stands before the loop; the loop pops from its back. *)
 Definition get (c : cfg) (req : option role) (shard : option nat) (order : list addr)
-               (outs : addr -> outcome) (now : Z) (bl : banlist) : gres * list addr * banlist :=
+               (outs : addr -> outcome) (tc bc : addr -> Z) (bl : banlist) : gres * list addr * banlist :=
   match effective_sel c shard with
   | SInvalid => (ErrInvalidShard, [], bl)
-  | _ => get_loop c now outs (rev order) bl
+  | _ => get_loop c tc bc outs (rev order) bl
   end.
 
 (** * Operations on the pool's ban list *)
@@ -266,7 +270,7 @@ Definition reason_of (k : exec_kind) : reason :=
   match k with KSend => MessageSendFailed | KRecv => MessageReceiveFailed | KStmtTimeout => StatementTimeout end.
 
 Inductive op : Type :=
-| Get (req : option role) (shard : option nat) (order : list addr) (outs : addr -> outcome) (now : Z)
+| Get (req : option role) (shard : option nat) (order : list addr) (outs : addr -> outcome) (tc bc : addr -> Z)
 | ExecFail (a : addr) (k : exec_kind) (now : Z)     (* a checked-out server of this pool breaks *)
 | AdminBan_ (h : nat) (d : Z) (now : Z)
 | AdminUnban (h : nat).
@@ -275,7 +279,7 @@ Inductive op : Type :=
     [get]); an [ExecFail] on anything else is not an event of this pool. *)
 Definition step (c : cfg) (bl : banlist) (o : op) : banlist :=
   match o with
-  | Get req shard order outs now => snd (get c req shard order outs now bl)
+  | Get req shard order outs tc bc => snd (get c req shard order outs tc bc bl)
   | ExecFail a k now => if in_servers c a then ban a (reason_of k) now bl else bl
   | AdminBan_ h d now => admin_ban c h d now bl
   | AdminUnban h => admin_unban c h bl
@@ -291,7 +295,7 @@ Definition wf_order (c : cfg) (req : option role) (shard : option nat) (order : 
 
 Definition wf_op (c : cfg) (o : op) : Prop :=
   match o with
-  | Get req shard order _ _ => wf_order c req shard order
+  | Get req shard order _ _ _ => wf_order c req shard order
   | _ => True
   end.
 
